@@ -71,6 +71,10 @@ def generic_step_bound(name, row, cfg):
     return None
 
 
+# objective = function of (instance, actions): re-scoring on another state of the same instance must agree
+RESCORE_ON_RESET = ("tsp", "atsp", "cvrp", "cvrptw", "sdvrp", "svrp", "op", "pctsp", "spctsp", "pdp", "mtvrp")
+
+
 class EpisodeSim:
     def __init__(self, run, monitors, cfg, rows, strategies, perturbs, sync_sdvrp=True):
         self.run = run
@@ -286,6 +290,23 @@ class EpisodeSim:
                 run.violate(name, "reward_shape", f"get_reward returned {rew.numel()} values for a batch of {B}",
                             constraint="shape", cfg=cfg)
                 raise StopRun()
+            # environments whose objective is a function of (instance, actions) are also re-scored on a freshly
+            # reset state of the same instances -- what rl4co.tasks.eval and the search methods do with the
+            # actions they get back; the objective of the executed solution cannot depend on which state is handed in
+            if name in RESCORE_ON_RESET and phase == "main" and len(src) == B:
+                with run.guard(name, "reset + get_reward on the fresh state", B=B, promise=False):
+                    td_fresh = E.reset(env, cfg, [self.rows[src[pos]] for pos in range(B)])
+                    rew_fresh = torch.as_tensor(env.get_reward(td_fresh, actions)).reshape(-1)
+                if rew_fresh.numel() == B:
+                    for pos in range(B):
+                        a, b_ = float(rew[pos]), float(rew_fresh[pos])
+                        if (a == a) and not (abs(a - b_) <= reward_tol(a, T)):
+                            run.violate(name, "reward_depends_on_state", f"row {pos}: get_reward gives {a!r} on the "
+                                        f"finished state and {b_!r} on a freshly reset state of the same instance, same "
+                                        f"actions", constraint="fresh_state", first=a, second=b_, cfg=cfg,
+                                        mode=cfg.get("kw", {}), actions=hist[pos], instance=E.enc_row(self.rows[src[pos]]))
+                            raise StopRun()
+                    run.probe("rescored_on_fresh_state")
             for pos in range(B):
                 ref = refs[pos]
                 if ref is None:
